@@ -468,3 +468,9 @@ Proof.
   split; [eexists; eexists; split; [vm_compute; reflexivity|vm_compute; reflexivity]|].
   eexists; split; [vm_compute; reflexivity|vm_compute; reflexivity].
 Qed.
+
+(* a position that was just created has zero records in all six uptime accumulators (nothing unclaimed, snapshot = growth inside now) *)
+Theorem C08_new_position_no_incentives_yet : forall rs owner a0 a1 m0 m1 lo hi rs' c, PII rs ->
+  r_create rs owner a0 a1 m0 m1 lo hi = Some (rs', c) -> zero_urec rs' (cr_id c) (cr_lower c) (cr_upper c).
+Proof. exact create_zero_urec. Qed.
+Print Assumptions C08_new_position_no_incentives_yet.
